@@ -62,3 +62,7 @@ def verdict_expr(c, r, ir, real):
 
 def nontrivial(c, r):
     return (c.get("leaf") or len(c["truth"]) >= 2) and r.get("result") == "ok"
+
+
+def witness_case(k):
+    return {"truth": [{"name": "S", "members": [("m", "(SArr 2%N (SArr 4%N (SScalar PF32)))")]}], "needs_encase": False}
